@@ -116,6 +116,7 @@ type gcCfg struct {
 	rel    bool
 	zfirst bool // a zero-sized component with a lower ID than the pointer component is part of every entity
 	pcLast bool // the pointer component is registered after the others (its ID differs from its column position)
+	pcID64 bool // ... and after 62 filler types: its ID is 64 (second mask word), ID 0 is a pointer-free type of the same size
 }
 
 func (c *gcCfg) Name() string { return c.id }
@@ -176,6 +177,11 @@ func (c *gcCfg) New() wx.Run {
 	}
 	r.a = ecs.ComponentID[sim.CompA](&r.w)
 	r.r = ecs.ComponentID[sim.CompR](&r.w)
+	if c.pcID64 {
+		for i := 0; i < 62; i++ {
+			ecs.TypeID(&r.w, mkType(i))
+		}
+	}
 	if c.pcLast {
 		r.pc = ecs.ComponentID[gen14.PC](&r.w)
 	}
@@ -939,6 +945,7 @@ func init() {
 			}(),
 			job(scAny(&gcCfg{id: "c14-gc-k2-zero-sized-first", k: 2, rel: false, zfirst: true}), pick(tier, 5, 7), 1),
 			job(scAny(&gcCfg{id: "c14-gc-k2-pointer-registered-last", k: 2, rel: true, pcLast: true}), pick(tier, 5, 7), 1),
+			job(scAny(&gcCfg{id: "c14-gc-k2-pointer-component-id-64", k: 2, rel: false, pcLast: true, pcID64: true}), pick(tier, 4, 6), 1),
 		}
 	}
 	gcJobs("quick")
